@@ -142,12 +142,14 @@ def r_coherence(idx, rep, rule="R-COHERENCE", relevant_to=None):
         if not up_params:
             continue
         pose = up_params[0]
-        direct = {}     # attr -> update expression
+        direct = {}     # attr -> update expression (last one)
+        direct_all = {}  # attr -> every update expression (branches!)
         delegated = {}  # attr -> argument expression
         for st in iter_stmts(up.node.body):
             if isinstance(st, ast.Assign) and len(st.targets) == 1 and isinstance(st.targets[0], ast.Attribute) \
                     and u(st.targets[0].value) == "self":
                 direct[st.targets[0].attr] = st.value
+                direct_all.setdefault(st.targets[0].attr, []).append(st.value)
             for c in calls(st) if isinstance(st, ast.Expr) else []:
                 if isinstance(c.func, ast.Attribute) and c.func.attr == "update_pose" and isinstance(c.func.value, ast.Attribute) \
                         and u(c.func.value.value) == "self":
@@ -165,6 +167,52 @@ def r_coherence(idx, rep, rule="R-COHERENCE", relevant_to=None):
         for q in params:
             if q == pose or re.match(r"^[a-z_]+2[a-z_]+$", q):
                 Q.add(q)
+        # every refresh must happen on ALL paths through update_pose (an `if moved:` / tolerance guard around a refresh leaves the
+        # stale value in place whenever the guard is false)
+        def eq_attrs(test):
+            """attributes b for which `test` (possibly negated) is the exact comparison of the new pose with self.b: skipping
+            `self.b = pose` under it is harmless for b itself (equal values; identical object when the caller edited in place)"""
+            t_ = test.operand if isinstance(test, ast.UnaryOp) and isinstance(test.op, ast.Not) else test
+            if isinstance(t_, ast.Call) and call_name(t_) == "np.array_equal" and len(t_.args) == 2:
+                names = [u(a_) for a_ in t_.args]
+                if pose in names:
+                    other = [n_ for n_ in names if n_ != pose]
+                    if other and other[0].startswith("self.") and other[0].count(".") == 1:
+                        b_ = other[0][5:]
+                        if b_ in direct and u(direct[b_]) == pose:
+                            return {b_}
+            return set()
+        exempt = set()
+
+        def must_assign(block):
+            out = set()
+            for st_ in block:
+                if isinstance(st_, ast.If) and eq_attrs(st_.test):
+                    exempt.update(eq_attrs(st_.test))
+                    out |= eq_attrs(st_.test)
+                if isinstance(st_, ast.Assign):
+                    for t_ in st_.targets:
+                        if isinstance(t_, ast.Attribute) and u(t_.value) == "self":
+                            out.add(t_.attr)
+                elif isinstance(st_, ast.Expr):
+                    for c_ in calls(st_):
+                        if isinstance(c_.func, ast.Attribute) and c_.func.attr == "update_pose" and isinstance(c_.func.value, ast.Attribute) \
+                                and u(c_.func.value.value) == "self":
+                            out.add(c_.func.value.attr)
+                elif isinstance(st_, ast.If):
+                    out |= must_assign(st_.body) & must_assign(st_.orelse)
+                elif isinstance(st_, (ast.Return, ast.Raise)):
+                    break
+            return out
+        always = must_assign(up.node.body)
+        early = [st_ for st_ in iter_stmts(up.node.body) if isinstance(st_, ast.Return)]
+        for b in sorted(set(direct) | set(delegated)):
+            if b in VISUAL_ONLY or (relevant is not None and b not in relevant):
+                continue
+            rep.check((b in always and not early) or b in exempt, rule, ck + "|%s refreshed on every path" % b, up.where,
+                      "update_pose refreshes self.%s only under a condition (or after an early return): when the condition is false the attribute keeps "
+                      "the value computed for the OLD pose while a freshly constructed collider has the new one (e.g. a 'did it move?' tolerance guard)" % b,
+                      "unconditional")
         # the new pose must be consumed: stored in an attribute or handed to a delegate
         consumed = any(pose in _names(e) for e in direct.values()) or any(a is not None and pose in _names(a) for a in delegated.values())
         rep.check(consumed, rule, ck + "|pose consumed", up.where,
@@ -219,9 +267,12 @@ def r_coherence(idx, rep, rule="R-COHERENCE", relevant_to=None):
                 elif q in stored_in:
                     mapping[q] = ast.Attribute(value=ast.Name(id="self", ctx=ast.Load()), attr=stored_in[q], ctx=ast.Load())
             want = u(subst(e, mapping))
-            got = u(direct[b])
-            rep.check(want == got, rule, key, up.where,
-                      "update_pose recomputes self.%s as `%s`, the constructor's expression after substituting the new pose is `%s`" % (b, got, want),
+            gots = [u(x) for x in direct_all[b]]
+            wrong = [g for g in gots if g != want]
+            rep.check(not wrong, rule, key, up.where,
+                      "update_pose recomputes self.%s as `%s` (on some path), the constructor's expression after substituting the new pose is `%s`: an "
+                      "incremental / shortcut update is not what a fresh collider computes (and reads the old stored pose, which aliases the caller's array)"
+                      % (b, wrong[0] if wrong else "", want),
                       "recomputed with the constructor's expression")
 
 
